@@ -27,11 +27,14 @@ CLAIMED = {
              "subscriptions the k-th partition goes to member k mod m so loads are within one. Both models are tied to "
              "/repo by byte-identical differential comparison on a slice (quick) or all (thorough) of the property's "
              "exhaustive space plus random inputs. PARTIAL for the sticky assignor: StickyAssignmentExecutor is ported to "
-             "Lean (Model/StickyAlg.lean, ~350 lines, single-generation user data), tied by byte-identical T-diff, and "
-             "'nothing else is assigned' IS proved for the port for every input, oracle and fuel (sticky_nothing_else: "
-             "invariant through assignment, movement bookkeeping incl. get_partition_to_be_moved, revert and fixed-consumer "
-             "handling); exact cover, KIP-54 balance and termination of the port are NOT proved: the Lean executable "
-             "statement (cover, nothing-else, KIP-54 balance; soundness lemmas proved) is evaluated on every explored "
+             "Lean (Model/StickyAlg.lean, ~350 lines, single-generation user data), tied by byte-identical T-diff, and its "
+             "VALIDITY IS PROVED for every input, oracle and fuel: sticky_nothing_else (whatever a member gets is a "
+             "listed partition of a topic it subscribes to) and sticky_exact_cover (every partition of every topic "
+             "with metadata and a subscriber is handed to some member and never to two different members), by two "
+             "invariants carried through _assign_partition, _move_partition incl. get_partition_to_be_moved, the "
+             "set-aside / re-insertion of fixed consumers, the revert, and established for the state built from the user "
+             "data (~2500 lines of Lean). NOT proved for the port: termination of _perform_reassignments (fuel) and "
+             "KIP-54 balance: the Lean statement kip54B (soundness lemma proved) is evaluated on every explored "
              "output, and non-termination / exceptions are findings.",
         design="3/C14",
         note="trusted: Lean kernel (+propext, Classical.choice, Quot.sound); T-diff harness, stub ClusterMetadata, "
